@@ -411,11 +411,24 @@ def main(argv=None):
         err_msgs.append("CHECKER-ERROR zero obligations generated")
     if conc.get("error"):
         err_msgs.append(f"CHECKER-ERROR {conc['error']}")
+    # audit of the sequence / stream algebra against executable reference
+    # semantics (properties whose proofs use it)
+    if any(x in (P.get("assumptions") or []) for x in ("A-ALG", "A-STREAMLAWS")):
+        from . import audit_axioms
+        try:
+            aa = audit_axioms.audit_algebra(os.path.join(ROOT, "contracts"),
+                                            a.repo)
+        except Exception as e:  # noqa: BLE001
+            aa = {"check": "sequence / stream algebra audit", "ok": False,
+                  "evaluations": 0, "witness": repr(e)[:300]}
+        cres = cres + [{k: v for k, v in aa.items() if k != "skipped"}]
+        if not aa["ok"]:
+            theory_fail = aa
     if lemma_fail:
         err_msgs.append("CHECKER-ERROR Lean lemma not accepted: "
                         + str(lemma_fail.get("witness"))[:300])
     if theory_fail:
-        err_msgs.append("CHECKER-ERROR path theory axiom refuted by pathlib: "
+        err_msgs.append("CHECKER-ERROR theory axiom refuted by its reference semantics: "
                         + str(theory_fail.get("witness"))[:400])
 
     for ln in lines + und_msgs + err_msgs:
